@@ -185,3 +185,9 @@ def known_match(line, out, msg, known):
             if k.get("id") == "K1":
                 return k
     return None
+
+
+def literal_ops(lit):
+    for s in ("m/%d" % lit, "m/%d'" % lit, "m/0/%dh" % lit, "M/%d/1" % lit):
+        yield "path_parse " + sx(s)
+    yield "w_bypath xkey:%s %s" % (sx(XPRV), sx("m/%d" % lit))
